@@ -975,7 +975,8 @@ def make_scan_plan(seed, idx, tier='quick'):
     cfg = {'quantum': rng.choice([30, 300, 3000]), 'warm': [] if cold else [version], 'first': 0, 'sequential': False,
            'perm': None, 'rounds': 1, 'pgen_atomic': rng.random() < 0.5, 'burst': 0, 'newline_p': 0.0, 'freeze_p': 0.0,
            'warn_error': rng.random() < 0.3,
-           'scan': {'cold': cold, 'systematic': mode == 0, 'max_attempts': 8 if tier == 'quick' else 16}}
+           'scan': {'cold': cold, 'systematic': mode == 0,
+                    'max_attempts': 2 if os.environ.get('VERIF_LIGHT') else (8 if tier == 'quick' else 16)}}
     return {'sim': 'threadsim', 'seed': seed, 'config': cfg, 'threads': [ops], 'switches': [], 'more': []}
 
 
@@ -1042,6 +1043,8 @@ def run_scan(seed, tier, scan=None):
     last_plan = scan
     budget = {'directed': scan['config']['scan']['max_attempts'], 'interrupts': scan['config']['scan']['max_attempts'] // 2}
     for op, pr in zip(scan['threads'][0], prof):
+        if _late():
+            break
         stats['scan.calls_profiled'] = stats.get('scan.calls_profiled', 0) + 1
         stats['scan.lines_profiled'] = stats.get('scan.lines_profiled', 0) + pr['steps']
         res['steps'] += pr['steps']
@@ -1190,7 +1193,7 @@ def run_cross(seed, tier):
         res['digest'] = dig.hexdigest()
         return base, res
     ref = _in_child(child_reference, base)
-    limit = 8 if tier == 'quick' else 16
+    limit = 2 if os.environ.get('VERIF_LIGHT') else (8 if tier == 'quick' else 16)
     pairs = [(x, y, first) for x in ea for y in eb for first in (0, 1)]
     rng.shuffle(pairs)
     last = base
@@ -1470,7 +1473,7 @@ def _late():
 
 def _worker(args):
     tier, seeds, deadline = args
-    _DEADLINE[0] = deadline + 10
+    _DEADLINE[0] = deadline
     import faulthandler
     faulthandler.dump_traceback_later(550, exit=True)
     out = {'runs': 0, 'digests': {}, 'violations': [], 'harness': [], 'steps': 0, 'switches': 0,
@@ -1534,7 +1537,7 @@ def selftest(tier, base_seed, n):
     seeds = [base_seed * 1_000_000 + 500_000 + i + (4 if (500_000 + i) % 12 == 3 else 0) for i in range(n)]   # (no systematic scan plan: 4 x 20 s)
     procs = []
     for hs in ('0', '12345'):
-        env = dict(os.environ, PYTHONHASHSEED=hs)
+        env = dict(os.environ, PYTHONHASHSEED=hs, VERIF_LIGHT='1')      # (scan plans with two directed attempts)
         procs.append(subprocess.Popen([sys.executable, os.path.join(VERIF, 'check.py'), 'digest', 'C18', tier,
                                        ','.join(map(str, seeds))], env=env, stdout=subprocess.PIPE,
                                       stderr=subprocess.PIPE, text=True))
@@ -1574,7 +1577,7 @@ def run_check(tier, base_seed, wall, workers, do_selftest):
     _custom_grammar_file()
     st_msg = 'skipped'
     if do_selftest:
-        ok, st_msg = selftest(tier, base_seed, 8 if tier == 'quick' else 32)
+        ok, st_msg = selftest(tier, base_seed, 6 if tier == 'quick' else 32)
         print('determinism self-test: %s' % st_msg)
         if not ok:
             print('HARNESS-ERROR: %s' % st_msg)
